@@ -216,7 +216,8 @@ Qed.
 Theorem corr_symmetric (f g : stairsQ) lo hi lc (v v' : V) : wf f -> wf g -> minimal f -> minimal g ->
   corr_signed_square f g lo hi 0 lc = Ok v -> corr_signed_square g f lo hi 0 lc = Ok v' -> v = v'.
 Proof.
-  intros Wf Wg Mf Mg. unfold corr_signed_square.
+  intros Wf Wg Mf Mg. unfold corr_signed_square. change (Qceqb 0 0) with true. cbv iota.
+  destruct (negb (closed_ok f g)); [discriminate|]. destruct (negb (closed_ok g f)); [intros _; discriminate|].
   destruct (cov_operands f g lo hi 0 lc) as [[[f1 g1] h1]|e] eqn:E1; [|discriminate]. cbn [lift_res].
   destruct (cov_operands g f lo hi 0 lc) as [[[g2 f2] h2]|e] eqn:E2; [|intros _; discriminate]. cbn [lift_res].
   destruct (operands_symmetric f g lo hi lc f1 g1 h1 g2 f2 h2 Wf Wg Mf Mg E1 E2)
@@ -235,4 +236,13 @@ Proof.
   - destruct (cov_masked f1 g1 lo h1) as [c1|e]; [|discriminate]. cbn [lift_res].
     destruct (cov_masked g2 f2 lo h1) as [c2|e]; [|intros _; discriminate]. cbn [lift_res].
     intros H1 H2. injection H1 as <-. injection H2 as <-. reflexivity.
+Qed.
+
+(* corr of two functions with steps and opposite closed sides is rejected before anything is computed *)
+Theorem corr_rejects_opposite_sides (f g : stairsQ) lo hi lc :
+  has_steps f = true -> has_steps g = true -> side_eqb (closed f) (closed g) = false ->
+  corr_signed_square f g lo hi 0 lc = Err EClosedMismatch.
+Proof.
+  intros Hf Hg Hc. unfold corr_signed_square. change (Qceqb 0 0) with true. cbv iota.
+  unfold closed_ok. rewrite Hf, Hg, Hc. reflexivity.
 Qed.
